@@ -647,6 +647,7 @@ type FuncContract struct {
 	Sig        string
 	NoPanic    bool
 	FrameOnly  bool
+	Uses       []string // names of axioms (unproved lemmas declared with //@ axiom) assumed in this function's VC
 	SyncPreserves []AssignLoc // at channel operations everything but these locations may change
 	HasSync       bool
 	Covers        []CoverSpec
@@ -691,7 +692,7 @@ type SpecFile struct {
 var directiveKw = map[string]bool{
 	"func": true, "extern": true, "interface": true, "functype": true, "requires": true, "ensures": true, "assigns": true, "reads": true,
 	"loop": true, "pure": true, "trusted": true, "spec": true, "pred": true, "uninterp": true, "ghost": true,
-	"lemma": true, "axiom": true, "props": true, "nopanic": true, "exclude": true, "frameonly": true, "sync": true, "covers": true,
+	"lemma": true, "axiom": true, "uses": true, "props": true, "nopanic": true, "exclude": true, "frameonly": true, "sync": true, "covers": true,
 }
 
 func parseSpecFile(path string, pkgName string) (*SpecFile, error) {
@@ -1015,6 +1016,17 @@ func parseSpecFile(path string, pkgName string) (*SpecFile, error) {
 				}
 			}
 			cur.Covers = append(cur.Covers, cs)
+		case "uses":
+			// uses a, b: the named axioms are assumed at function entry (each is listed as an assumption)
+			if cur == nil {
+				return nil, p.errf("uses outside func")
+			}
+			for p.peek().k != "eof" {
+				t := p.next()
+				if t.v != "," {
+					cur.Uses = append(cur.Uses, t.v)
+				}
+			}
 		case "frameonly":
 			// only frame / reads / postcondition obligations are generated; run-time panics and callee
 			// preconditions are assumed not to occur (listed as an assumption in the evidence)
